@@ -7,6 +7,7 @@ import (
 	"sync"
 	"context"
 	"fmt"
+	"net"
 	"strings"
 	"time"
 
@@ -48,7 +49,14 @@ type tcpCase struct {
 	Results   []string `json:"results,omitempty"` // got:<i> err corrupt
 	Taken     []int    `json:"taken,omitempty"`
 	Connected bool     `json:"connected,omitempty"`
-	term      string
+
+	// accepted (a transport handed out by a real listener)
+	Configured int  `json:"configured_limit,omitempty"`
+	Reported   int  `json:"reported_limit,omitempty"`
+	Before     int  `json:"before,omitempty"`
+	Size       int  `json:"size,omitempty"`
+	Accepted   bool `json:"accepted,omitempty"`
+	term       string
 }
 
 func textMessage(id, content string) *lime.Message {
@@ -302,6 +310,73 @@ func runReadCase(limit int, sizes []int, plan []string, n int) *tcpCase {
 	return c
 }
 
+// runAcceptedCase: a real TCP listener configured with read limit L (0: no configuration) on a loopback socket; the
+// transport it hands out reports its limit, then receives small frames totalling about `before` bytes and one frame
+// of `size` bytes.
+func runAcceptedCase(L, before, size int) (*tcpCase, error) {
+	c := &tcpCase{Form: "accepted", Configured: L, Before: before, Size: size}
+	var cfg *lime.TCPConfig
+	if L > 0 {
+		cfg = &lime.TCPConfig{ReadLimit: int64(L)}
+	}
+	l := lime.NewTCPTransportListener(cfg)
+	addr, err := freeTCPAddr()
+	if err != nil {
+		return nil, err
+	}
+	ctx, cancel := context.WithTimeout(context.Background(), 10*time.Second)
+	defer cancel()
+	if err := l.Listen(ctx, addr); err != nil {
+		return nil, err
+	}
+	defer l.Close()
+	conn, err := net.Dial("tcp", addr.String())
+	if err != nil {
+		return nil, err
+	}
+	defer conn.Close()
+	st, err := l.Accept(ctx)
+	if err != nil {
+		return nil, err
+	}
+	defer st.Close()
+	rep := lime.VerifTCPReadBudget(st)
+	switch {
+	case rep == lime.DefaultReadLimit:
+		c.Reported = 0
+	case rep > 99999:
+		c.Reported = 99999
+	default:
+		c.Reported = int(rep)
+	}
+	var stream []byte
+	i := 0
+	for len(stream) < before {
+		f, _ := frameOfSize(i, minFrame(i)+5)
+		stream = append(stream, f...)
+		i++
+	}
+	small := i
+	big, ok := frameOfSize(i, size)
+	if !ok {
+		return nil, fmt.Errorf("frame size below the minimum")
+	}
+	go func() { _, _ = conn.Write(append(stream, big...)) }()
+	for k := 0; k <= small; k++ {
+		rctx, rc := context.WithTimeout(ctx, 3*time.Second)
+		v, err := st.Receive(rctx)
+		rc()
+		if err != nil {
+			break
+		}
+		if m, ok := v.(*lime.Message); ok && m.ID == fmt.Sprintf("f%d", small) {
+			c.Accepted = true
+		}
+	}
+	c.term = coqfmt.App("CAccepted", coqfmt.Nat(c.Configured), coqfmt.Nat(c.Reported), coqfmt.Nat(before), coqfmt.Nat(size), coqfmt.Bool(c.Accepted))
+	return c, nil
+}
+
 func tcpReplay(env *Env) (bool, error) {
 	var rc tcpCase
 	ok, err := env.ReplayDesc(&rc)
@@ -309,7 +384,11 @@ func tcpReplay(env *Env) (bool, error) {
 		return ok, err
 	}
 	var c *tcpCase
-	if rc.Form == "write" {
+	if rc.Form == "accepted" {
+		if c, err = runAcceptedCase(rc.Configured, rc.Before, rc.Size); err != nil {
+			return true, err
+		}
+	} else if rc.Form == "write" {
 		c = runWriteCase(rc.Payloads, rc.Oracle)
 	} else {
 		c = runReadCase(rc.Limit, rc.Sizes, rc.ReadPlan, rc.N)
@@ -432,7 +511,7 @@ func init() {
 	register("C16", func(env *Env) error {
 		env.Header = tcpHeader + "Corr.C16."
 		env.ShardSize = 120
-		env.Rule = "limits 64, 100, 1000, 4096 x a frame of size around limit, limit+1, 2*limit, 2*limit+1, 2*limit+2 and 10*limit at every position 0..k of a stream of small frames x coalescing patterns (everything at once, chunks of 1/7/limit bytes, chunk boundaries just before and after the big frame); per Receive the bytes taken from the injected connection are counted exactly. Non-trivial: the stream contains a frame larger than the limit. Distinct by printed case."
+		env.Rule = "limits 64, 100, 1000, 4096 x a frame of size around limit, limit+1, 2*limit, 2*limit+1, 2*limit+2 and 10*limit at every position 0..k of a stream of small frames x coalescing patterns (everything at once, chunks of 1/7/limit bytes, chunk boundaries just before and after the big frame); per Receive the bytes taken from the injected connection are counted exactly; plus transports handed out by a real listener configured with limits none/200/4096/65536 on a loopback socket (reported limit, frames within the limit and beyond twice the limit, first and behind three limits of small frames). Non-trivial: the stream contains a frame larger than the limit. Distinct by printed case."
 		if ok, err := tcpReplay(env); ok || err != nil {
 			return err
 		}
@@ -441,6 +520,24 @@ func init() {
 			env.Count(fmt.Sprintf("limit=%d", c.Limit))
 			if nt {
 				env.NonTrivial(c.term)
+			}
+		}
+		// the limit a listener was configured with reaches the transports it hands out
+		for _, L := range []int{0, 200, 4096, 65536} {
+			sizes := []int{100}
+			if L > 0 {
+				sizes = []int{L - 50, L, 2*L + 2, 3 * L, 10 * L}
+			}
+			for _, size := range sizes {
+				for _, before := range []int{0, 3 * (L + 100)} {
+					c, err := runAcceptedCase(L, before, size)
+					if err != nil {
+						return err
+					}
+					env.Add(c.term, c)
+					env.Count("accepted-by-listener")
+					env.NonTrivial(c.term)
+				}
 			}
 		}
 		limits := []int{64, 100, 1000, 4096}
